@@ -100,6 +100,7 @@ def cases(tier, seed):
             forced.append(["zero", i])
             forced.append(["special", "parsed_same_label", i])
             forced.append(["special", "element_bound", i])
+            forced.append(["special", "coords_reordered", i])
     for (r, p) in ROI_PRE:
         forced.append(["roi", r, p, 0])
     ng, nf = N_GEN[tier] // BLOCK, N_FILES[tier] // BLOCK
@@ -669,7 +670,7 @@ def floors(counters, tier):
            ["%s_style:%s:%s" % (w, a, e) for w in ("data", "group") for a in ("alpha", "linewidth", "markersize")
             for e in ("falsy", "max")]
     need += ["variant:" + v for v in ("rows>=100", "many_columns", "zero_size", "same_label_references",
-                                      "element_bound_next_to_longer_tables")]
+                                      "element_bound_next_to_longer_tables", "coordinate_components_out_of_axis_order")]
     if counters.get("same_label_expression_masks_with_value", 0) < 3:
         out.append("fewer than 3 evaluable expressions over same-labelled references compared")
     if counters.get("bound_element_masks_on_other_tables:IncompatibleAttribute", 0) + \
